@@ -4,6 +4,18 @@ NOTES = ("Every check re-compiles coq/theories/Properties/<id>.v (theorems over 
          "implementation. See DESIGN.md. known_findings.json lists recorded defects; replays/ is written only on failure.")
 NOT_APPLICABLE = {}
 CLAIMS = {
+    "C05": {
+        "text": "Theorems over the Fetch model for every env and canon oracle (20, closed under the global context). Metamorphic part (all masters incl. nested multiples, both diff "
+                "flags, $-free sources): the result depends on the sources only through the observational class of their concatenation (C05_observational), hence splitting a source at "
+                "a top-level boundary, spelling a path nested or dotted (the parser's wrap_dotted = single-child braces up to layout), erasing merge flags/ids/lines/attributes of "
+                "source objects, and swapping adjacent unrelated objects at top level or inside any named scope never change the result. Rules part (exact, error outcomes included, any "
+                "depth): the result is one block per master entry; definitions: all matches evaluated, the last wins, else the default, the first failing match decides an error; scopes: "
+                "the same fetch on the concatenated children; multiples: template (is_template = 0 iff .optional is set and false) followed by dedupe_keep_last of the candidates "
+                "(further master occurrences, then sources) whose canonical text differs from the master's, with dedupe_keep_last specified (last occurrence survives, each key once, "
+                "order kept). PARTIAL: sources with $ and the unused-list under splitting are compared on every run, not proved; extraction lists are judged by the reference oracle.",
+        "note": "Trusted as C04 (Fetch model, canon oracle recorded from the implementation). The reference oracle (independent Python transcription of the property text on extraction "
+                "dumps) applies to masters without multiples inside multiple scopes.",
+    },
     "C04": {
         "text": "Theorems over the Fetch model for every env and every canon oracle (closed under the global context): every Ok result has exactly the master's structure - one block per "
                 "active master entry in master order, every result object carrying the master's header and attribute list, non-multiple definitions once (deprecated ones only when a "
